@@ -95,6 +95,8 @@ pub struct Config {
     pub name: String,
     pub derived: Vec<String>,
     pub is_enum: bool,
+    /// probe shape `enum X<T> { U, B(F3<T>) }` with the variant slots on the FIELD-LESS variant U
+    pub unit_variant: bool,
     pub slots: Vec<SlotDef>,
 }
 
@@ -148,7 +150,7 @@ pub fn make_config(name: &str, derived: &[&str], is_enum: bool) -> Config {
         }
         slots.push(SlotDef { place: p, kind: Kind::Shared });
     }
-    Config { name: name.into(), derived: derived.iter().map(|s| s.to_string()).collect(), is_enum, slots }
+    Config { name: name.into(), derived: derived.iter().map(|s| s.to_string()).collect(), is_enum, unit_variant: false, slots }
 }
 
 #[derive(Clone, Debug)]
@@ -240,7 +242,11 @@ fn render(cfg: &Config, opts: &[Opt], key_on: Option<Tr>) -> (String, String) {
         if let Some(l) = list(Place::Variant, false) {
             vattrs.push(format!("#[derive_ex({l})]"));
         }
-        item.push_str(&format!("enum X<T> where T: Decl {{ {} A({} F1<T>, F2<T>), B(F3<T>) }}", vattrs.join(" "), fattrs));
+        if cfg.unit_variant {
+            item.push_str(&format!("enum X<T> where T: Decl {{ {} U, B(F3<T>) }}", vattrs.join(" ")));
+        } else {
+            item.push_str(&format!("enum X<T> where T: Decl {{ {} A({} F1<T>, F2<T>), B(F3<T>) }}", vattrs.join(" "), fattrs));
+        }
     } else {
         let single = cfg.derived.iter().any(|d| !field_levels(d));
         if single {
@@ -324,7 +330,13 @@ pub fn ref_bounds(cfg: &Config, opts: &[Opt], key_on: Option<Tr>, t: &str) -> BT
         }
         _ => (None, true),
     };
-    if cfg.is_enum {
+    if cfg.unit_variant {
+        // variant U (slots, no fields); variant B, field B.0
+        let _use_u = walk(use_type, &levels(Place::Variant, None), &mut out);
+        if use_type && t != "Default" {
+            out.insert(Exp::Field(3));
+        }
+    } else if cfg.is_enum {
         // variant A (slots), fields A.0 (slots) and A.1; variant B, field B.0
         let use_a = walk(use_type, &levels(Place::Variant, None), &mut out);
         let use_a0 = walk(use_a, &levels(Place::Field, cut), &mut out);
@@ -397,11 +409,22 @@ fn concretise(e: &BTreeSet<Exp>, template: &str) -> BTreeSet<String> {
         .collect()
 }
 
+/// enum configuration whose variant-level slots sit on a unit variant (no field slots)
+fn make_unit_config(name: &str, derived: &[&str]) -> Config {
+    let mut c = make_config(name, derived, true);
+    c.slots.retain(|s| s.place != Place::Field);
+    c.unit_variant = true;
+    c
+}
+
 pub fn configs() -> Vec<Config> {
     let mut v = Vec::new();
     for t in ["Clone", "Copy", "Debug", "Default", "PartialEq", "Eq", "PartialOrd", "Ord", "Hash"] {
         v.push(make_config(&format!("{t}/enum"), &[t], true));
         v.push(make_config(&format!("{t}/struct"), &[t], false));
+    }
+    for t in ["Clone", "Copy", "Debug", "Default", "PartialEq", "Ord", "Hash"] {
+        v.push(make_unit_config(&format!("{t}/enum-unit-variant"), &[t]));
     }
     for t in ["Add", "Shl", "SubAssign", "Neg", "Not", "Deref", "DerefMut"] {
         v.push(make_config(&format!("{t}/struct"), &[t], false));
@@ -458,19 +481,32 @@ fn gen(ch: &mut Ch, cfgs: &[Config], plan: &Plan) -> Option<Case> {
     }
     let mut opts = Vec::with_capacity(cfg.slots.len());
     let mut dev = 0;
-    for _ in 0..cfg.slots.len() {
-        let o = match mode {
-            0 => *ch.of(&Opt::ALL),
-            1 => *ch.of(&Opt::THREE),
-            _ => *ch.of(&Opt::ALL),
-        };
-        if o != Opt::Absent {
-            dev += 1;
-            if mode == 0 && dev > plan.max_dev {
-                return None;
-            }
+    if mode == 0 {
+        // deviation-bounded: choose how many levels are non-absent, then which (increasing
+        // positions), then their options - no pruned branches
+        let n = cfg.slots.len();
+        let k = ch.pick(plan.max_dev.min(n) + 1);
+        opts = vec![Opt::Absent; n];
+        let mut start = 0usize;
+        for j in 0..k {
+            let still_needed = k - j - 1;
+            let avail = n - start - still_needed;
+            let p = start + ch.pick(avail);
+            opts[p] = Opt::ALL[1 + ch.pick(Opt::ALL.len() - 1)];
+            start = p + 1;
         }
-        opts.push(o);
+        dev = k;
+    } else {
+        for _ in 0..cfg.slots.len() {
+            let o = match mode {
+                1 => *ch.of(&Opt::THREE),
+                _ => *ch.of(&Opt::ALL),
+            };
+            if o != Opt::Absent {
+                dev += 1;
+            }
+            opts.push(o);
+        }
     }
     // the full products repeat what the deviation-bounded mode (and, for mode 2, mode 1) covered
     if mode != 0 && dev <= plan.max_dev {
